@@ -714,6 +714,10 @@ impl Family for C13Reg {
       ("polite", Json::Bool(rng.below(2) == 0)),
       ("second_subscriber", Json::Bool(rng.below(2) == 0)),
       ("share_observable", Json::Bool(rng.below(2) == 0)),
+      // `src.ref_count().observable()` style: the connectable value itself is dropped at once
+      ("drop_handle", Json::Bool(rng.below(2) == 0)),
+      // the first subscriber is not cut by the source: it leaves by an ordinary unsubscribe at the end
+      ("fire", Json::Bool(rng.below(4) != 0)),
     ])
   }
   fn exec(&self, w: &Json, cfg: RunCfg) -> RunOut {
@@ -724,6 +728,8 @@ impl Family for C13Reg {
       return RunOut::invalid();
     }
     let (polite, second, share) = (w.b("polite"), w.b("second_subscriber"), w.b("share_observable"));
+    let drop_handle = share && w.get("drop_handle").is_some() && w.b("drop_handle");
+    let fire = w.get("fire").is_none() || w.b("fire");
     let (rec_a, rec_b) = (Recorder::new(), Recorder::new());
     // (source subscriptions, source observer still subscribed after everybody left)
     let snap: Arc<Mutex<(usize, bool)>> = Arc::new(Mutex::new((0, false)));
@@ -737,7 +743,7 @@ impl Family for C13Reg {
         *sm2.lock().unwrap() += 1;
         so2.lock().unwrap().push(s.clone());
         for i in 0..n {
-          if i == fire_after {
+          if fire && i == fire_after {
             trig2.step_all(&Step::N(1));
           }
           if polite && !s.is_subscribed() {
@@ -745,7 +751,7 @@ impl Family for C13Reg {
           }
           s.next(Val::Int(20 + i));
         }
-        if fire_after == n {
+        if fire && fire_after == n {
           trig2.step_all(&Step::N(1));
         }
         match ends3.as_str() {
@@ -756,7 +762,14 @@ impl Family for C13Reg {
       });
       let conn = if kind2 == "ref_count" { Conn::RefCount(source.ref_count()) } else { Conn::Replay(source.replay()) };
       let shared = conn.observable();
-      let get = |c: &Conn| if share { shared.clone() } else { c.observable() };
+      let mut conn = Some(conn);
+      if drop_handle {
+        conn = None;
+      }
+      let get = |c: &Option<Conn>| match c {
+        Some(c) if !share => c.observable(),
+        _ => shared.clone(),
+      };
       let sub_a = ra.subscribe(&get(&conn).take_until(trigger.observable()));
       if second {
         let sub_b = rb.subscribe(&get(&conn));
@@ -783,11 +796,24 @@ impl Family for C13Reg {
       if alive {
         v.push(Violation::new("source-not-stopped", blame, format!("{}: every subscriber has left, yet the source's observer still sees is_subscribed()==true (first subscriber saw [{}])", what, show(&a))));
       }
-      // first subscriber: items emitted before the trigger (a prefix of them), then one complete
-      let before: Vec<Ev> = (0..fire_after).map(|i| Ev::Next(Val::Int(20 + i))).collect();
+      // first subscriber: items emitted before the trigger (a prefix of them), then one complete;
+      // without the trigger: everything the source emitted, and its terminal if it has one
       let items: Vec<Ev> = a.iter().filter(|e| !e.is_terminal()).cloned().collect();
       let terms = a.iter().filter(|e| e.is_terminal()).count();
-      if !before.starts_with(&items) || terms != 1 || a.last() != Some(&Ev::Complete) {
+      if !fire {
+        let mut all: Vec<Ev> = (0..n).map(|i| Ev::Next(Val::Int(20 + i))).collect();
+        match ends.as_str() {
+          "complete" => all.push(Ev::Complete),
+          "error" => all.push(Ev::Error(4)),
+          _ => {}
+        }
+        if a != all {
+          v.push(Violation::new("delivery-differs", blame, format!("{} (trigger never fired): its first subscriber received [{}]", what, show(&a))));
+        }
+      } else if {
+        let before: Vec<Ev> = (0..fire_after).map(|i| Ev::Next(Val::Int(20 + i))).collect();
+        !before.starts_with(&items) || terms != 1 || a.last() != Some(&Ev::Complete)
+      } {
         v.push(Violation::new("delivery-differs", blame, format!("{}: its first subscriber received [{}]", what, show(&a))));
       }
     }
